@@ -25,6 +25,8 @@ from pynguin.master_worker.worker import (
 
 _LOGGER = logging.getLogger(__name__)
 
+_WORKER_POLL_INTERVAL = 0.5
+
 
 class RunningTask:
     """Represents a running test generation task with its associated worker process."""
@@ -128,6 +130,11 @@ class RunningTask:
             Result from the worker process
         """
         try:
+            # A descendant of a dead worker may still hold the sending end of the pipe, in
+            # which case recv() never sees an EOF: watch the worker process as well.
+            while not self._receiving_connection.poll(_WORKER_POLL_INTERVAL):
+                if not self._worker_process.is_alive() and not self._receiving_connection.poll():
+                    raise EOFError("Worker process died without sending a result")
             result = self._receiving_connection.recv()
             self._receiving_connection.close()
             _LOGGER.info(
